@@ -53,6 +53,10 @@ if rc != 0:
     ck.violation("harness-run", "harness run failed: " + out[-500:], {"log": out[-3000:]}, no_input=True)
     ck.finish({"evaluations": 1, "distinct_nontrivial": 0, "rule": "n/a", "samples": ["harness run failed"]})
 cases = json.load(open(res))
+for c in cases:
+    if c.get("Pkgs"):
+        for r, pk in zip(c["Runs"], c["Pkgs"]):
+            r["CheckedFiles"] = sorted(f for p in pk if p["Initial"] and not p["Failed"] and not p["Skipped"] for f in (p["Files"] or []))
 ck.log("harness: %d cases" % len(cases))
 
 
@@ -62,9 +66,13 @@ def cdiag(d):
         coq_str(d["Category"]), coq_str(d["Message"]), d["Severity"], d["MergeIf"], coq_str(d["BuildName"]))
 
 
-def crun(r):
-    return "mkRun %s %s" % (coq_list([coq_str(f) for f in (r["CheckedFiles"] or [])]),
-                            coq_list([cdiag(d) for d in (r["Diagnostics"] or [])]))
+def crun(r, pkgs=None):
+    if pkgs is not None:   # a run of the real linter: checked files = checked_of (packages as known by construction)
+        checked = "(checked_of %s)" % coq_list(["mkPk %s %s %s %s" % (coq_bool(p["Initial"]), coq_bool(p["Failed"]), coq_bool(p["Skipped"]),
+                                                                      coq_list([coq_str(f) for f in (p["Files"] or [])])) for p in pkgs])
+    else:
+        checked = coq_list([coq_str(f) for f in (r["CheckedFiles"] or [])])
+    return "mkRun %s %s" % (checked, coq_list([cdiag(d) for d in (r["Diagnostics"] or [])]))
 
 
 def cview(v):
@@ -79,7 +87,9 @@ def ccase(c):
         if c[flag]:
             obs.append("(%s, %s)" % (tag, coq_list([cview(v) for v in (c[field] or [])])))
     merged = "(Some %s)" % coq_list([cdiag(d) for d in (c["Merged"] or [])]) if c["HasMerged"] else "None"
-    return "mkCase %s %s %s" % (coq_list([crun(r) for r in (c["Runs"] or [])]), merged, coq_list(obs))
+    pk = c.get("Pkgs") or [None] * len(c["Runs"] or [])
+    oc = "(Some %s)" % coq_list([coq_list([coq_str(f) for f in l or []]) for l in c["ObsChecked"]]) if c.get("HasObsChecked") else "None"
+    return "mkCase %s %s %s %s" % (coq_list([crun(r, p) for r, p in zip(c["Runs"] or [], pk)]), merged, coq_list(obs), oc)
 
 
 HEADER = """From Coq Require Import List ZArith String. Import ListNotations.
@@ -182,7 +192,7 @@ def key_of(c):
 
 reported = 0
 # smallest reproducers first: black-box directed, in-process directed, black-box random, then by size
-PRIO = {"cli-directed": 0, "directed": 1, "matrix": 2, "cli": 2, "variant": 3, "random": 3}
+PRIO = {"matrix": 0, "cli-directed": 0, "directed": 1, "cli": 2, "variant": 3, "random": 3}
 Vs.sort(key=lambda x: (PRIO.get(cases[x[0]]["Kind"], 9), sum(len(r["Diagnostics"] or []) for r in cases[x[0]]["Runs"] or []), x[0]))
 for i, diffs in Vs:
     if reported >= 8:
@@ -190,6 +200,9 @@ for i, diffs in Vs:
     c = cases[i]
     exp, obs = expected(c), dict(observed(c))
     what = "%s case: %s; " % (c["Kind"], ", ".join(diffs))
+    if "DChecked" in diffs:
+        what += "CheckedFiles of the real runs %s differ from the files of the packages that were analysed (initial, compiled, not skipped) %s; " % (
+            json.dumps(c.get("ObsChecked")), json.dumps([r["CheckedFiles"] for r in c["Runs"]]))
     if "DMerged" in diffs:
         what += "mergeRuns kept/dropped the wrong problems for %d runs; " % len(c["Runs"] or [])
     if any(d.startswith("DPrinted") for d in diffs):
